@@ -115,14 +115,13 @@ class Run:
             rig.select()
         elif lt == LOST:
             rig.lose()
-        elif lt == T3:
-            t = rig.h._communication_state._wait_cra_timer
-            if t is not None and t.armed and rig.fire(t):
-                rig.log.append(("blk",))
-        elif lt == DLY:
-            t = rig.h._communication_state._comm_delay_timer
-            if t is not None and t.armed and rig.fire(t):
-                rig.log.append(("blk",))
+        elif lt in (T3, DLY):
+            # the pending timer of that kind that was armed first fires (there is at most one unless a stale one was left behind)
+            live = rig.timers("_on_wait_cra_timeout" if lt == T3 else "_on_wait_comm_delay_timeout")
+            if live:
+                info["fired_current"] = live[0] is (m._wait_cra_timer if lt == T3 else m._comm_delay_timer)
+                if rig.fire(live[0]):
+                    rig.log.append(("blk",))
         else:
             _, s, f, w, kind, c = lt
             real, abst = self.resolve_sys(kind)
@@ -159,7 +158,14 @@ class Run:
             info["t3_armed_with"] = (m._wait_cra_timer.interval, rig.settings.timeouts.t3)
         if dl_a and id(m._comm_delay_timer) != timers_before[1]:
             info["delay_armed_with"] = (m._comm_delay_timer.interval, rig.settings.establish_communication_timeout)
-        st = {"letter": lt, "before": before, "after": rig.comm(), "link_before": link_before, "link_after": rig.link,
+        # timers that are pending although the machine is not in their state, or that are not the one armed on entering it
+        stale = [("T3", t) for t in rig.timers("_on_wait_cra_timeout") if rig.comm() != "WAIT_CRA" or t is not m._wait_cra_timer] + \
+                [("delay", t) for t in rig.timers("_on_wait_comm_delay_timeout") if rig.comm() != "WAIT_DELAY" or t is not m._comm_delay_timer]
+        if stale:
+            info["stale_timers"] = [k for k, _ in stale]
+        # what the application is told: waitfor_communicating() without waiting
+        wfc = bool(rig.h.waitfor_communicating(0))
+        st = {"letter": lt, "wfc": wfc, "before": before, "after": rig.comm(), "link_before": link_before, "link_after": rig.link,
               "t3_before": t3_b, "dly_before": dl_b, "t3_after": t3_a, "dly_after": dl_a, "outs": outs,
               "queued": rig.p._send_queue.qsize(), "info": info}
         selected = rig.p.connection_state.current.name == "CONNECTED_SELECTED"
@@ -188,7 +194,7 @@ def show_out(o):
 
 
 def show_step(st):
-    return (f"{st['after']}/{int(st['link_after'])}{int(st['t3_after'])}{int(st['dly_after'])}/{st['queued']}:"
+    return (f"{st['after']}/{int(st['link_after'])}{int(st['t3_after'])}{int(st['dly_after'])}{int(st['wfc'])}/{st['queued']}:"
             + "+".join(show_out(o) for o in st["outs"]))
 
 
@@ -251,6 +257,15 @@ def oracle(steps):
                             f"S1F14 COMMACK={lt[5]} (refusal) in WAIT_CRA did not start the establish-communications delay", i))
             if lt == DLY and before == "WAIT_DELAY" and st["dly_before"] and not (after == "WAIT_CRA" and ids and st["t3_after"]):
                 bad.append(("no-retry", "delay expiry in WAIT_DELAY did not send S1F13 again", i))
+        # what the application is told (waitfor_communicating) is the established state, nothing else
+        if st["wfc"] != (after == "COMMUNICATING"):
+            bad.append(("reported-established-wrongly", f"waitfor_communicating(0) returns {st['wfc']} in {after}", i))
+        # every timer armed on entering WAIT_CRA / WAIT_DELAY is cancelled on leaving it; a retry happens only when the timer armed
+        # for the current WAIT_DELAY fires
+        if st["info"].get("stale_timers"):
+            bad.append(("stale-timer", f"a {st['info']['stale_timers'][0]} timer armed in an earlier state is still pending in {after}", i))
+        if lt == DLY and before == "WAIT_DELAY" and after == "WAIT_CRA" and st["info"].get("fired_current") is False:
+            bad.append(("retry-before-configured-delay", "S1F13 retried by a delay timer left over from an earlier attempt, not by the one armed for this WAIT_DELAY", i))
         for key, what in (("delay_armed_with", "establish-communications delay"), ("t3_armed_with", "reply timeout T3")):
             if key in st["info"] and st["info"][key][0] != st["info"][key][1]:
                 bad.append(("wrong-timer-duration", f"the timer armed for the {what} runs {st['info'][key][0]} s, configured are {st['info'][key][1]} s", i))
@@ -331,7 +346,7 @@ def gen_histories(rng, tier, search):
                 for idx in product(len(wide), k):
                     out.append((role, 0, base + [wide[i] for i in idx], "exh-wide"))
             # the 9-letter alphabet, all words of length `depth` (variant of the two parameterised letters drawn per occurrence)
-            if not big and (bi in (0, 5, 6, 8) or (role == "host" and bi in (1, 3, 7))):
+            if not big and (bi in (0, 1, 5, 6, 8) or (role == "host" and bi in (3, 7))):
                 continue  # quick: the long words start from the prefixes that differ most (all of them in thorough)
             for idx in product(len(CLASSES), depth):
                 out.append((role, 0, base + [variants(rng, CLASSES[i]) for i in idx], f"exh-{depth}"))
